@@ -26,6 +26,7 @@ ASSUMPTIONS = ["handleEventException output is suppressed (sys.stderr) during th
 B_NONE, B_TRUE, B_FALSE, B_HALTREMOVE, B_RAISE, B_SUB, B_UNSUB, B_EMPTY, B_REMOVE, B_HALT, B_RERAISE = range(11)
 BEH_SMALL = [B_NONE, B_TRUE, B_FALSE, B_HALTREMOVE, B_RAISE, B_SUB, B_UNSUB]
 BEH_ALL = list(range(11))
+BEH_NESTED = [B_NONE, B_RERAISE, B_REMOVE, B_FALSE, B_HALTREMOVE]     # quick tier: nested deliveries (a handler raises the event again) against one-shot / self-removing handlers
 
 
 class Boom(Exception):
@@ -125,8 +126,19 @@ class World:
     prev = getattr(self, 'cur', None); self.cur = did
     self.depth += 1
     order = self.expected_delivery()
+    ev = self.E1() if form == 'instance' else self.E1
+    exc = None; rv = 'unset'
+    try:
+      rv = (self.src.raiseEventNoErrors if noerr else self.src.raiseEvent)(ev)
+    except Boom as e:
+      exc = e
+    # a one-shot handler, or one that asks to be removed, which a nested delivery (a handler of this delivery raising the event again before
+    # its turn) has already used up is never invoked again - not from this delivery's snapshot either
+    def used_up(s):
+      return (s['once'] or s['beh'] in (B_FALSE, B_HALTREMOVE, B_REMOVE)) and any(h == s['hid'] and d > did for h, d in self.log)
     exp = []; propagates = False; dead = []
     for s in order:
+      if used_up(s): continue
       exp.append(s['hid'])
       b = s['beh']
       if s['once'] or b in (B_FALSE, B_HALTREMOVE, B_REMOVE): dead.append(s)
@@ -135,12 +147,6 @@ class World:
           if o['hid'] == (0 if s['hid'] != 0 else 1) and o['alive'] and o not in dead: dead.append(o); break
       if b == B_RAISE: propagates = True; break
       if b in (B_TRUE, B_HALTREMOVE, B_HALT, B_EMPTY): break
-    ev = self.E1() if form == 'instance' else self.E1
-    exc = None; rv = 'unset'
-    try:
-      rv = (self.src.raiseEventNoErrors if noerr else self.src.raiseEvent)(ev)
-    except Boom as e:
-      exc = e
     self.depth -= 1
     for s in dead: s['alive'] = False           # reference state after the delivery
     got = [h for h, d in self.log if d == did]
@@ -378,7 +384,7 @@ def obligations(tier):
                       "U unsubscribe (symbolic target and form: handler, eid, (type,eid), handler+type, eid+type, list), R/r raise class/instance, N/n NoErrors",
                       behaviours=len(behs))
   return [
-    Obligation('O1_histories', h_history, [dict(plan=p, behs=behs) for p in plans], witnesses=('done',), max_decisions=20000,
+    Obligation('O1_histories', h_history, [dict(plan=p, behs=behs) for p in plans] + ([dict(plan=p, behs=BEH_NESTED) for p in ('SSR', 'SSSR', 'SSRR', 'SSN')] if not thorough else []), witnesses=('done',), max_decisions=20000,
                desc='invocation log == reference dispatcher over symbolic histories'),
     Obligation('O2_misc', h_misc, [dict(what=x) for x in ('undeclared', 'weak', 'weak_during', 'noerrors_kinds', 'bulk_remove', 'remove_by_reference', 'weak_control', 'autobind')], witnesses=('done',),
                desc='undeclared types rejected; weak handlers; autoBindEvents/removeListeners'),
